@@ -837,6 +837,7 @@ func runGen(cfg Config, args []string, prop string) int {
 			"15% of the worlds are the family 'method without error result naming error-capable functions'. distinct_nontrivial counts distinct (method shape, notations, operand set, failing subset) tuples."
 		b.Assume = []string{"user functions do not panic (excluded by the statement)", "error identity is checked with ==", "a compiler diagnostic in the generated file is attributed to C07 only when it sits in a function without error result on a line calling an error-capable stub (or mentions err / assignment mismatch there)"}
 		b.Required = []string{"n:plans_executed"}
+		b.Unwanted = []string{"n:normal_worlds_rejected", "n:worlds_unexplored_build_failure"}
 		b.Desired = []string{"fired:conv-returns-error", "fired:getter-returns-error", "fired:pre-returns-error", "fired:post-returns-error"}
 	} else {
 		b.Rule = "gensim worlds (shared with C07): methods with :preprocess/:postprocess hooks over destination by pointer/value x source by pointer/value x with/without error x declaring the additional parameters or not x local or imported (blank-imported package) x style return/arg x pointer/value operands x receiver x 0-2 additional arguments; " +
@@ -846,6 +847,7 @@ func runGen(cfg Config, args []string, prop string) int {
 			"the hook-less twin of the sentinel differential is generated in arg style: which fields a method assigns is assumed not to depend on :style", "a panic exit of the generator counts as 'rejected' for misfit hooks (that it should be a diagnostic is C14)",
 			"a compiler diagnostic on a hook call line of the generated file is a violation of 'passed by pointer or by value exactly as the hook declares'"}
 		b.Required = []string{"n:hook_histories_checked", "n:misfit_hooks_tried"}
+		b.Unwanted = []string{"n:normal_worlds_rejected", "n:worlds_unexplored_build_failure"}
 		b.Desired = []string{"n:sentinel_differentials"}
 	}
 	rep := RunBatch(b, start)
